@@ -236,14 +236,124 @@ Qed.
 Lemma inline_tail_shape : forall selset f tc r1 s r, SelsetSpec selset ->
   inline_tail selset f tc r1 = Ok s r ->
   exists pd sub dirs sels, r1 = pd ++ sub ++ r /\ DirsShape r1 pd /\ SetOK sels sub /\ s = SInline tc dirs sels /\
-    (sels = [] -> sub = []) /\ (sels <> [] -> exists b r', sub ++ r = b :: r' /\ pk b = KLBrace).
+    (sels = [] -> sub = [] /\ forall b r', r = b :: r' -> pk b <> KLBrace).
 Proof.
   intros selset f tc r1 s r HS H. unfold inline_tail in H.
   dmatch H. apply dirs_shape in E. destruct E as (pd & -> & Hpd).
   destruct rest as [|b r4].
-  { inversion H; subst. exists pd, [], a, []. splits; try assumption; try apply SetOK_none; try reflexivity; try (intros; congruence). }
+  { inversion H; subst. exists pd, [], a, []. splits; try assumption; try apply SetOK_none; try reflexivity.
+    intros _. split; [reflexivity|]. intros; discriminate. }
   destruct (is_kind KLBrace b) eqn:Eb.
   - dmatch H. inversion H; subst. pose proof E as E'. apply HS in E. destruct E as (ps & Eq & Hset & Hne & Hpne).
     exists pd, ps, a, a0. rewrite Eq. splits; try assumption; try reflexivity.
-  Show. all: admit. 
-Abort.
+    + rewrite <- Eq. exact Hpd.
+    + intro; congruence.
+  - inversion H; subst. exists pd, [], a, []. splits; try assumption; try apply SetOK_none; try reflexivity.
+    intros _. split; [reflexivity|]. intros b0 r' Heq. inversion Heq; subst. intro Hk.
+    unfold is_kind in Eb. rewrite Hk in Eb. discriminate Eb.
+Qed.
+
+Lemma rev_nonnil : forall {A} (l : list A), l <> [] -> rev l <> [].
+Proof. intros A l H E. apply (f_equal (@rev A)) in E. rewrite rev_involutive in E. simpl in E. contradiction. Qed.
+
+Lemma sel_shape : forall fuel,
+  SelsetSpec (parse_selset fuel) /\
+  (forall ts acc sels r, parse_sels fuel ts acc = Ok sels r ->
+     exists body c more, ts = body ++ c :: r /\ pk c = KRBrace /\ sels = rev acc ++ more /\ SelsOK more body /\ sels <> []) /\
+  (forall ts s r, parse_field fuel ts = Ok s r -> exists pre, ts = pre ++ r /\ SelOK s pre /\ pre <> []) /\
+  (forall ts s r, parse_frag_sel fuel ts = Ok s r ->
+     exists pre, ts = pre ++ r /\ forall s0, pk s0 = KSpread -> SelOK s (s0 :: pre)).
+Proof.
+  induction fuel as [|f IH]; [splits; try (intros; discriminate); intros ts sels r H; discriminate H|].
+  destruct IH as (IHset & IHsels & IHfield & IHfrag). splits.
+  - (* selection set *)
+    intros ts sels r H. cbn [parse_selset] in H.
+    destruct ts as [|t r0]; [discriminate H|]. dmatch H. apply is_kind_eq in E.
+    apply IHsels in H. destruct H as (body & c & more & -> & Hc & Hs & Hok & Hne). simpl in Hs. subst more.
+    exists (t :: body ++ [c]). splits.
+    + simpl. rewrite <- app_assoc. reflexivity.
+    + apply SetOK_some; assumption.
+    + assumption.
+    + discriminate.
+  - (* the loop *)
+    intros ts acc sels r H. cbn [parse_sels] in H.
+    destruct ts as [|t r0]; [discriminate H|]. dmatch H.
+    { apply is_kind_eq in E. destruct acc as [|a0 acc']; [discriminate H|]. inversion H; subst.
+      exists [], t, []. splits; try reflexivity; try assumption.
+      - rewrite app_nil_r. reflexivity.
+      - apply SelsOK_nil.
+      - intro Hx. apply app_eq_nil in Hx. destruct Hx as [_ Hx]. discriminate Hx. }
+    dmatch H.
+    { dmatch H. apply IHfield in E1. destruct E1 as (p1 & Eq & Hp1 & _).
+      apply IHsels in H. destruct H as (body & c & more & -> & Hc & Hs & Hok & Hne).
+      exists (p1 ++ body), c, (a :: more). rewrite Eq. splits; try assumption.
+      - rewrite <- app_assoc. reflexivity.
+      - rewrite Hs. simpl. rewrite <- app_assoc. reflexivity.
+      - apply SelsOK_cons; assumption. }
+    dmatch H. dmatch H. apply is_kind_eq in E1.
+    apply IHfrag in E2. destruct E2 as (p1 & -> & Hp1).
+    apply IHsels in H. destruct H as (body & c & more & -> & Hc & Hs & Hok & Hne).
+    exists ((t :: p1) ++ body), c, (a :: more). splits; try assumption.
+    + simpl. rewrite <- app_assoc. reflexivity.
+    + rewrite Hs. simpl. rewrite <- app_assoc. reflexivity.
+    + apply SelsOK_cons; [apply Hp1; assumption|assumption].
+  - (* field *)
+    intros ts s r H. cbn [parse_field] in H.
+    destruct ts as [|t r0]; [discriminate H|].
+    destruct (is_kind KIdent t) eqn:Et; [|discriminate H]. simpl in H. apply is_kind_eq in Et.
+    assert (Hd1 : FieldsOK 1 [t] /\ StateOK [t]).
+    { split; [apply FieldsOK_ident; assumption|apply StateOK_tok; congruence]. }
+    assert (Plainhd : forall r1, field_tail (parse_selset f) f None (plit t) r1 = Ok s r ->
+              exists pre, t :: r1 = pre ++ r /\ SelOK s pre /\ pre <> []).
+    { intros r1 Ht. apply field_tail_shape in Ht; [|exact IHset].
+      destruct Ht as (mid & sub & args & dirs & sels & -> & Hm & Hset & ->).
+      exists ([t] ++ mid ++ sub). splits; [simpl; rewrite <- app_assoc; reflexivity| |discriminate].
+      apply SelOK_field; tauto. }
+    destruct r0 as [|c r1]; [apply Plainhd; exact H|].
+    destruct (is_kind KColon c) eqn:Ec; [|apply Plainhd; exact H].
+    apply is_kind_eq in Ec. destruct r1 as [|n r2]; [discriminate H|]. dmatch H. apply is_kind_eq in E.
+    apply field_tail_shape in H; [|exact IHset].
+    destruct H as (mid & sub & args & dirs & sels & -> & Hm & Hset & ->).
+    exists ([t; c; n] ++ mid ++ sub). splits; [simpl; rewrite <- app_assoc; reflexivity| |discriminate].
+    apply SelOK_field; try assumption.
+    + apply (FieldsOK_weaken _ (1 + (0 + 1))); [lia|].
+      change [t; c; n] with ([t] ++ [c] ++ [n]).
+      apply FieldsOK_app; [apply FieldsOK_ident; assumption|].
+      apply FieldsOK_app; [apply FieldsOK_plain; eapply Plain_tok_kind; [eassumption|reflexivity]|apply FieldsOK_ident; assumption].
+    + change [t; c; n] with ([t] ++ [c] ++ [n]).
+      apply StateOK_app; [apply StateOK_tok; congruence|].
+      apply StateOK_app; apply StateOK_tok; congruence.
+  - (* after a spread *)
+    intros ts s r H. cbn [parse_frag_sel] in H.
+    destruct ts as [|t r0]; [discriminate H|].
+    destruct (is_kind KLBrace t || is_kind KAt t) eqn:E1.
+    { apply inline_tail_shape in H; [|exact IHset].
+      destruct H as (pd & sub & dirs & sels & Eq & Hd & Hset & -> & Hnil).
+      exists (pd ++ sub). split; [rewrite <- app_assoc; exact Eq|].
+      intros s0 Hs0.
+      destruct Hd as [[-> Hnot]|(a & n & pre' & -> & Ha & Hn & Hp)].
+      - (* no directive: the brace follows the spread directly, so the set is non-empty *)
+        assert (Hne : sels <> []).
+        { intro Hs. destruct (Hnil Hs) as [-> Hnb]. simpl in Eq.
+          apply Bool.orb_true_iff in E1. destruct E1 as [E1|E1]; apply is_kind_eq in E1.
+          - apply (Hnb t r0); [symmetry; exact Eq|exact E1].
+          - apply (Hnot t r0 eq_refl). exact E1. }
+        change (s0 :: [] ++ sub) with (s0 :: [] ++ [] ++ sub).
+        apply SelOK_inline; try assumption; [left; auto|apply Plain_nil].
+      - change (s0 :: (a :: n :: pre') ++ sub) with (s0 :: ([a] ++ [n]) ++ pre' ++ sub).
+        apply SelOK_inline; try assumption.
+        right. exists [a], n. splits; [reflexivity|assumption|]. intros x [<-|[]]. assumption. }
+    dmatch H. apply is_kind_eq in E.
+    destruct (is_on t) eqn:Eon.
+    + destruct r0 as [|n r1]; [discriminate H|]. dmatch H. apply is_kind_eq in E0.
+      apply inline_tail_shape in H; [|exact IHset].
+      destruct H as (pd & sub & dirs & sels & -> & Hd & Hset & -> & Hnil).
+      exists (t :: n :: pd ++ sub). split; [simpl; rewrite <- app_assoc; reflexivity|].
+      intros s0 Hs0.
+      change (s0 :: t :: n :: pd ++ sub) with (s0 :: ([] ++ [t]) ++ (n :: pd) ++ sub).
+      apply SelOK_inline; try assumption.
+      * right. exists [], t. splits; [reflexivity|assumption|]. intros x [].
+      * apply Plain_cons; [rewrite E0; reflexivity|eapply DirsShape_plain; eassumption].
+    + dmatch H. inversion H; subst. apply dirs_plain in E0. destruct E0 as (pd & -> & Hpd).
+      exists (t :: pd). split; [reflexivity|]. intros s0 Hs0. apply SelOK_spread; assumption.
+Qed.
